@@ -198,7 +198,7 @@ func c04Run(c *c04Case, choose func(conn int, n int) int, tmp string) (fail *vh.
 		finisherStarted := false
 		names := []string{"getMessages", "feeder", "finisher"}
 		bodies := []func(){
-			func() { api.getMessages(ctx, resume, ch) },
+			func() { c04GetMessages(api, ctx, resume, ch) },
 			func() {
 				for k := 0; k < feed; k++ {
 					if err := node.o.Add(c.Batches[node.applied].messages()); err != nil {
@@ -380,4 +380,20 @@ func TestVerifC04(t *testing.T) {
 			rt.Fatalf("%v", f)
 		}
 	})
+}
+
+// c04GetMessages calls the unexported getMessages through its method expression, so that the
+// harness still builds when a change hands the function the session as well (the handler knows
+// it; seed C04m did exactly that). Any other signature is a harness that no longer fits the code:
+// the unit stops without a verdict.
+func c04GetMessages(api *HTTP, ctx context.Context, resume robust.Id, ch chan []*robust.Message) {
+	var f interface{} = (*HTTP).getMessages
+	switch g := f.(type) {
+	case func(*HTTP, context.Context, robust.Id, chan<- []*robust.Message):
+		g(api, ctx, resume, ch)
+	case func(*HTTP, context.Context, robust.Id, robust.Id, chan<- []*robust.Message):
+		g(api, ctx, robust.Id{Id: c04Session}, resume, ch)
+	default:
+		panic(fmt.Sprintf("harness: getMessages has a signature this unit does not know: %T", f))
+	}
 }
